@@ -308,3 +308,17 @@ func driveCPRand(s *exec.State, g *gen.G, n int) {
 		scriptCP(s, pk)
 	}
 }
+
+func init() {
+	// random XR block sequences of up to 8 blocks (C15)
+	drivers["xrrand"] = func(s *exec.State, g *gen.G, n int) {
+		for i := 0; i < n; i++ {
+			k := g.Pick(0, 1, 2, 3, 4, 5, 8)
+			bs := make(abs.L, k)
+			for j := range bs {
+				bs[j] = g.XRBlock()
+			}
+			scriptRT(s, abs.V{"k": "XR", "sender": g.U32(), "blocks": bs})
+		}
+	}
+}
